@@ -89,61 +89,45 @@ def takeN (n : Nat) (bs : Bytes) : Option (Bytes × Bytes) :=
 
 /-- a length-prefixed byte string -/
 def readLP (bs : Bytes) : Option (Bytes × Bytes) :=
-  match readBe64 bs with
-  | none => none
-  | some (n, r) => takeN n r
+  (readBe64 bs).bind fun p => takeN p.1 p.2
 
 def readMsgs : Nat → Bytes → Option (List Bytes × Bytes)
   | 0, bs => some ([], bs)
   | k + 1, bs =>
-    match readLP bs with
-    | none => none
-    | some (m, r) =>
-      match readMsgs k r with
-      | none => none
-      | some (ms, r') => some (m :: ms, r')
+    (readLP bs).bind fun p => (readMsgs k p.2).bind fun q => some (p.1 :: q.1, q.2)
+
+def parseDomSep (bs : Bytes) : Option (Op × Bytes) :=
+  (readLP bs).bind fun p => some (.domSep p.1, p.2)
+
+def parseAppend (bs : Bytes) : Option (Op × Bytes) :=
+  (readLP bs).bind fun p => (readBe64 p.2).bind fun q => (readMsgs q.1 q.2).bind fun w =>
+    some (.append p.1 w.1, w.2)
+
+/-- the byte after the requested length tells the live stream (`continued`) from the squeezed fork (`extracted`) -/
+def parseFork (label : Bytes) (n : Nat) : Bytes → Option (Op × Bytes)
+  | [] => none
+  | c :: r =>
+    if c = continuedTag then some (.extract label n, r)
+    else if c = extractedTag then some (.extracted label n, r)
+    else none
+
+def parseExtract (bs : Bytes) : Option (Op × Bytes) :=
+  (readLP bs).bind fun p => (readBe64 p.2).bind fun q => parseFork p.1 q.1 q.2
 
 /-- decode one framed operation from the front of `bs` -/
 def parseOne : Bytes → Option (Op × Bytes)
   | [] => none
   | t :: bs =>
-    if t = domainTag then
-      match readLP bs with
-      | none => none
-      | some (tag, r) => some (.domSep tag, r)
-    else if t = appendTag then
-      match readLP bs with
-      | none => none
-      | some (label, r) =>
-        match readBe64 r with
-        | none => none
-        | some (k, r') =>
-          match readMsgs k r' with
-          | none => none
-          | some (ms, r'') => some (.append label ms, r'')
-    else if t = extractTag then
-      match readLP bs with
-      | none => none
-      | some (label, r) =>
-        match readBe64 r with
-        | none => none
-        | some (_, []) => none
-        | some (n, c :: r') =>
-          if c = continuedTag then some (.extract label n, r')
-          else if c = extractedTag then some (.extracted label n, r')
-          else none
+    if t = domainTag then parseDomSep bs
+    else if t = appendTag then parseAppend bs
+    else if t = extractTag then parseExtract bs
     else none
 
 def parseAux : Nat → Bytes → Option (List Op)
   | 0, bs => if bs.isEmpty then some [] else none
   | f + 1, bs =>
     if bs.isEmpty then some [] else
-    match parseOne bs with
-    | none => none
-    | some (op, r) =>
-      match parseAux f r with
-      | none => none
-      | some ops => some (op :: ops)
+    (parseOne bs).bind fun p => (parseAux f p.2).bind fun ops => some (p.1 :: ops)
 
 /-- decode a whole absorbed stream (every operation consumes at least one byte, so `|bs|` is enough fuel) -/
 def parse (bs : Bytes) : Option (List Op) := parseAux bs.length bs
